@@ -167,6 +167,31 @@ func c18L3(r *core.R) {
 			}
 		}
 	}
+	// longer and empty witness lists: a hand-written search (or an off-by-one in the bounds) only shows with
+	// several elements; the value sits before, at, between and behind them. An `all` entry has no list at all.
+	for _, kind := range []string{"all", "whitelist", "blacklist"} {
+		for _, ll := range []int64{0, 2, 3, 4} {
+			for rk := int64(0); rk <= ll; rk++ {
+				for _, eq := range []bool{false, true} {
+					if eq && rk == ll {
+						continue
+					}
+					s := c18ListScen(kind, c18Fresh, ll, rk, eq)
+					o := x.run(c18ModeIter, s)
+					nruns++
+					in := map[bool]string{true: "is", false: "is not"}[eq]
+					switch {
+					case kind == "all":
+						branch[kind].expect(s, o, "true", "returns true")
+					case (kind == "whitelist") == eq:
+						branch[kind].expect(s, o, "true", "returns true (value "+in+" in the list)")
+					default:
+						branch[kind].expect(s, o, "head", "goes on to the next entry (value "+in+" in the list)")
+					}
+				}
+			}
+		}
+	}
 	var loopPos token.Pos = c.fi.Decl.Pos()
 	for st := range x.loopSeen {
 		loopPos = st.Pos()
